@@ -161,6 +161,17 @@ def run(ck):
                 elif err and orc.get("errno") not in (None, err.get("errno")):
                     ck.violation("C09: reopen failed with errno %s, the kernel's own reopen gives %s" % (err.get("errno"), orc.get("errno")), desc)
                 nontrivial.add((kind, fl, op.get("fdnum"), len(op["history"]), tag, str(err)))
+            # "with the requested flags plus O_CLOEXEC|O_NOCTTY": judged on the call that does the reopen (the kernel does not keep
+            # O_NOCTTY in the file flags, so F_GETFL cannot tell) -- the openat of the handle's fd magic-link by its decimal name
+            hfd = (res.get("handle") or {}).get("fd")
+            for ev in res.get("trace", []) or []:
+                if ev["c"] == "openat" and hfd is not None and unhex(ev.get("path", "")) == str(hfd).encode() and not ev.get("flags", 0) & O["NOFOLLOW"]:
+                    stats["reopen_calls_seen"] = stats.get("reopen_calls_seen", 0) + 1
+                    missing = [n for n in ("CLOEXEC", "NOCTTY") if not ev["flags"] & O[n]]
+                    if missing:
+                        ck.violation("C09: the open that performs the reopen lacks O_%s" % "/O_".join(missing), dict(desc, call=ev))
+                    if (ev["flags"] & ACCMASK) != (fl & ACCMASK) and not fl & O["PATH"]:
+                        ck.violation("C09: the open that performs the reopen does not carry the requested access mode", dict(desc, call=ev))
             if len(samples) < 5 and op.get("fdnum") == 0 and op["history"]:
                 samples.append(desc)
             # tie T2': the static kernel model's answers to reopen's own calls (fstat, the procfs reads, statx by name, the
@@ -222,6 +233,7 @@ def run(ck):
         "other_errors_compared_with_kernel": stats["other_err"],
         "unshared_fd_table_runs": stats.get("unshared", 0),
         "by_inode_kind": stats["by_kind"], "by_descriptor_number": stats["by_fd"],
+        "reopen_calls_whose_flags_were_judged": stats.get("reopen_calls_seen", 0),
         "static_kernel_traces_validated": stats.get("static_traces", 0), "static_kernel_calls_compared": stats.get("static_calls", 0),
         "traces_validated_against_impl": stats["t1_ok"], "t1_mismatches": stats["t1_bad"],
         "disagreements_checked": stats["t1_bad"],
